@@ -1,22 +1,36 @@
-(* C11: the function the harness extracts.  "ediff": two raw stores (declared structure + alias target paths + base paths) are
-   elaborated inside Coq (Model/C11_elab.v) and compared by fbc; everything else is Model/C11_apidiff.v's run_C11. *)
+(* C11: the function the harness extracts.  The traversal is the one driven by the definitions regenerated from diff.py /
+   mixins.py (Model/C11_dispatch.v: fbc_g, breakages_g; Proofs/C11_ladder.v proves them equal to fbc / breakages).
+   "diff": two stores abstracted from the loaded trees (alias targets and inherited members as Griffe answers them);
+   "ediff": two raw stores (declared structure + alias target paths + base paths) elaborated inside Coq (Model/C11_elab.v);
+   "public" / "names": Model/C11_apidiff.v's run_C11. *)
 From Coq Require Import List Arith Bool ZArith String Ascii.
-From Verif Require Import Lib.Sexp Model.C10_kinds Gen.C10_tables Model.C10_diff Model.C11_apidiff Model.C11_elab.
+From Verif Require Import Lib.Sexp Model.C10_kinds Gen.C10_tables Model.C10_diff Model.C11_apidiff Model.C11_dispatch Model.C11_elab.
 Import ListNotations.
 Open Scope string_scope. Open Scope list_scope. Open Scope nat_scope.
 
 Definition run_C11x (s : sexp) : sexp :=
   match s with
+  | SList [SStr "diff"; o; n; ri; rj] =>
+      match dec_store o, dec_store n, as_nat ri, as_nat rj with
+      | Some go, Some gn, Some ri', Some rj' =>
+          let r := fbc_g go gn (default_fuel go gn) ri' rj' in
+          let flags := SList [of_bool (wf_store go && wf_store gn); of_nat (check_exit_g go gn r)] in
+          match r with
+          | Ok seen log => SList [SStr "ok"; SList (map enc_breakage (breakages_g go gn log)); flags; SList (map enc_ev log)]
+          | ErrBad => SList [SStr "bad-store"; SList []; flags; SList []]
+          | OutOfFuel => SList [SStr "out-of-fuel"; SList []; flags; SList []]
+          end
+      | _, _, _, _ => bad_input end
   | SList [SStr "ediff"; o; n; ri; rj] =>
       match dec_rstore o, dec_rstore n, as_nat ri, as_nat rj with
       | Some ro, Some rn, Some ri', Some rj' =>
           let go := elab ro in
           let gn := elab rn in
-          let r := fbc go gn (default_fuel go gn) ri' rj' in
-          let flags := SList [of_bool (rwf ro && rwf rn); of_bool (wf_store go && wf_store gn); of_nat (check_exit go gn r)] in
+          let r := fbc_g go gn (default_fuel go gn) ri' rj' in
+          let flags := SList [of_bool (rwf ro && rwf rn); of_bool (wf_store go && wf_store gn); of_nat (check_exit_g go gn r)] in
           let views := SList [enc_views ro; enc_views rn; enc_extra ro; enc_extra rn] in
           match r with
-          | Ok seen log => SList [SStr "ok"; SList (map enc_breakage (breakages go gn log)); flags; views]
+          | Ok seen log => SList [SStr "ok"; SList (map enc_breakage (breakages_g go gn log)); flags; views]
           | ErrBad => SList [SStr "bad-store"; SList []; flags; views]
           | OutOfFuel => SList [SStr "out-of-fuel"; SList []; flags; views]
           end
